@@ -24,6 +24,7 @@ from typing import Any, cast, Generic, TYPE_CHECKING, TypeVar
 import numpy as np
 
 from cirq import devices, ops, protocols, study, value
+from cirq.sim import simulation_utils
 from cirq.sim.simulation_product_state import SimulationProductState
 from cirq.sim.simulation_state import TSimulationState
 from cirq.sim.simulation_state_base import SimulationStateBase
@@ -312,10 +313,10 @@ class SimulatorBase(
 
         def pad_evenly(results: Sequence[Sequence[Sequence[int]]]):
             largest = max(len(result) for result in results)
-            xs = np.zeros((len(results), largest, len(results[0][0])), dtype=np.uint8)
+            xs = np.zeros((len(results), largest, len(results[0][0])), dtype=np.int64)
             for i, result in enumerate(results):
                 xs[i, 0 : len(result), :] = result
-            return xs
+            return xs.astype(simulation_utils.digits_dtype([int(xs.max(initial=0)) + 1]))
 
         return {str(k): pad_evenly(v) for k, v in records.items()}
 
